@@ -311,7 +311,8 @@ static void run_oracle(const std::string &q, tribool ans, const RCP<const Basic>
         cands.push_back(ok);
     }
     Rng r(fnv(line));
-    int ntry = symv.empty() ? 1 : 24, tested = 0;
+    // one symbol: every admissible pool value; several symbols: 24 assignments
+    int ntry = symv.empty() ? 1 : symv.size() == 1 ? (int)cands[0].size() : 24, tested = 0;
     for (int t = 0; t < ntry; t++) {
         map_basic_basic m;
         std::string desc;
@@ -321,6 +322,8 @@ static void run_oracle(const std::string &q, tribool ans, const RCP<const Basic>
             RCP<const Number> v = t < 3 ? c[(t * 7 + i) % c.size()] : c[r.below(c.size())];
             if (t == 0)
                 v = c[0];
+            if (symv.size() == 1)
+                v = c[t];
             m[symv[i]] = v;
             desc += (i ? "," : "") + symv[i]->__str__() + "=" + v->__str__();
         }
